@@ -4,8 +4,12 @@ package nebula
 
 import (
 	"log/slog"
+	"net/netip"
+	"sync"
 
+	"github.com/slackhq/nebula/header"
 	"github.com/slackhq/nebula/noiseutil"
+	"github.com/slackhq/nebula/udp"
 )
 
 // Verification hooks for the `counter` correspondence engine (add-only, no behaviour).
@@ -36,4 +40,44 @@ func VerifCounterSendInsideEncrypt(l *slog.Logger, cs *ConnectionState, remoteIn
 	f := &Interface{l: l}
 	hi := &HostInfo{remoteIndexId: remoteIndex, ConnectionState: cs}
 	return f.sendInsideEncrypt(hi, cs, seg, scratch, nb)
+}
+
+// VerifCounterSender is a bare Interface / HostInfo / Relay around one tunnel, enough to run the three
+// send paths that reserve a message counter (no sockets: the writer is udp.NoopConn).
+type VerifCounterSender struct {
+	f     *Interface
+	hi    *HostInfo
+	relay *Relay
+}
+
+func VerifCounterNewSender(l *slog.Logger, cs *ConnectionState, remoteIndex uint32) *VerifCounterSender {
+	f := &Interface{
+		l:       l,
+		writers: []udp.Conn{udp.NoopConn{}},
+		connectionManager: &connectionManager{
+			relayUsed:     map[uint32]struct{}{},
+			relayUsedLock: &sync.RWMutex{},
+		},
+	}
+	hi := &HostInfo{
+		vpnAddrs:        []netip.Addr{netip.MustParseAddr("10.0.0.9")},
+		remoteIndexId:   remoteIndex,
+		ConnectionState: cs,
+	}
+	return &VerifCounterSender{f: f, hi: hi, relay: &Relay{LocalIndex: 5, RemoteIndex: 6, PeerAddr: netip.MustParseAddr("10.0.0.2")}}
+}
+
+// SendInsideEncrypt is the hot data path (sendInsideEncrypt).
+func (s *VerifCounterSender) SendInsideEncrypt(seg, scratch, nb []byte) []byte {
+	return s.f.sendInsideEncrypt(s.hi, s.hi.ConnectionState, seg, scratch, nb)
+}
+
+// PrepareSendVia is the relay send path (prepareSendVia).
+func (s *VerifCounterSender) PrepareSendVia(ad, nb, out []byte) ([]byte, error) {
+	return s.f.prepareSendVia(s.hi, s.relay, ad, nb, out, false)
+}
+
+// SendNoMetrics is the control / test / lighthouse send path (sendNoMetrics) towards an explicit remote.
+func (s *VerifCounterSender) SendNoMetrics(p, nb, out []byte) {
+	s.f.sendNoMetrics(header.Test, header.TestRequest, s.hi.ConnectionState, s.hi, netip.MustParseAddrPort("192.0.2.1:4242"), p, nb, out, 0)
 }
